@@ -117,6 +117,9 @@ pub struct Choice {
     pub who: u32,
     /// partial-order reduction: bit j set = alternative j was in the sleep set at this node
     pub asleep: u64,
+    /// a *free* choice (scenario enumeration, e.g. the next event of a history): every alternative is
+    /// explored regardless of the deviation bound and it never counts as a deviation
+    pub free: bool,
 }
 
 #[derive(Debug, Clone, Copy, PartialEq, Eq)]
@@ -161,6 +164,10 @@ struct Exec {
     prefix_done_at: usize,
     queue: Vec<usize>,
     contended: bool,
+    /// the current task asked to yield (harness `yield_now`): by default somebody else runs next
+    yielded: bool,
+    /// the harness switched schedule exploration off for a phase (defaults are taken, nothing recorded)
+    no_explore: bool,
     contended_streak: usize,
     in_spawn: bool,
     /// forced hand-off (no decision recorded): run the newest task / this task next
@@ -309,6 +316,7 @@ impl Exec {
         let quiescer = self.quiescing.map(|q| q.0);
         let cur = current.filter(|c| ids.contains(c));
         let contended = std::mem::replace(&mut self.contended, false);
+        let yielded = std::mem::replace(&mut self.yielded, false);
         if contended {
             self.contended_streak += 1;
         } else {
@@ -317,13 +325,19 @@ impl Exec {
         let eligible = |t: usize| Some(t) != clock && Some(t) != quiescer;
         let mut order: Vec<usize> = Vec::with_capacity(ids.len());
         if let Some(c) = cur {
-            if !contended && eligible(c) {
+            if !contended && !yielded && eligible(c) {
                 order.push(c);
             }
         }
         for t in &self.queue {
             if Some(*t) != cur && eligible(*t) {
                 order.push(*t);
+            }
+        }
+        if let Some(c) = cur {
+            // a task that yielded voluntarily goes to the back of the line (it stays an alternative)
+            if yielded && !contended && eligible(c) {
+                order.push(c);
             }
         }
         if contended {
@@ -385,6 +399,7 @@ impl Exec {
                 }
             }
             let no_branch = self.final_phase
+                || self.no_explore
                 || (self.in_spawn && !self.cfg.branch_at_spawn && cur.is_some() && !contended);
             if alts.len() == 1 || no_branch {
                 let t = alts[0];
@@ -454,6 +469,7 @@ impl Exec {
                     n: n as u16,
                     who: who as u32,
                     asleep,
+                    free: false,
                 });
                 if self.path.len() == self.prefix.len() {
                     self.prefix_done_at = self.steps;
@@ -480,8 +496,8 @@ impl Exec {
         Ok(chosen)
     }
 
-    fn choose(&mut self, label: &'static str, n: usize) -> Result<usize, ()> {
-        if n <= 1 || self.final_phase || !self.cfg.choose_labels.contains(&label) {
+    fn choose(&mut self, label: &'static str, n: usize, free: bool) -> Result<usize, ()> {
+        if n <= 1 || self.final_phase || (!free && !self.cfg.choose_labels.contains(&label)) {
             return Ok(0);
         }
         // an environment answer is dependent with everything
@@ -502,6 +518,7 @@ impl Exec {
             n: n as u16,
             who: u32::MAX,
             asleep: 0,
+            free,
         });
         if self.path.len() == self.prefix.len() {
             self.prefix_done_at = self.steps;
@@ -850,7 +867,7 @@ impl Hooks for H {
         if !active() {
             return 0;
         }
-        match with_exec(|e| e.choose(label, n)).unwrap_or(Ok(0)) {
+        match with_exec(|e| e.choose(label, n, false)).unwrap_or(Ok(0)) {
             Ok(c) => c,
             Err(()) => {
                 with_exec(|e| e.active = false);
@@ -1011,6 +1028,27 @@ pub fn choose(label: &'static str, n: usize) -> usize {
     HOOKS.choose(label, n)
 }
 
+/// Switch schedule exploration off / on for a phase of the body (set-up, uninteresting prefixes):
+/// while off, every scheduling decision takes its default and is not recorded.
+pub fn explore_schedules(on: bool) {
+    with_exec(|e| e.no_explore = !on);
+}
+
+/// A *free* choice: scenario enumeration (e.g. "which event comes next in the history"). Every
+/// alternative is explored whatever the deviation bound; it never counts as a deviation.
+pub fn choose_free(label: &'static str, n: usize) -> usize {
+    if !active() {
+        return 0;
+    }
+    match with_exec(|e| e.choose(label, n, true)).unwrap_or(Ok(0)) {
+        Ok(c) => c,
+        Err(()) => {
+            with_exec(|e| e.active = false);
+            std::panic::panic_any(PANIC_DIVERGENCE)
+        }
+    }
+}
+
 /// A harness-level scheduling point (subject to the job's filter, kind `Other`)
 pub fn point(label: &'static str) {
     sched_point(PointKind::Other, label)
@@ -1138,8 +1176,10 @@ pub async fn count_polls<T>(fut: impl Future<Output = T>) -> (T, usize) {
     (v, polls)
 }
 
-/// Yield once to the scheduler from async harness code (a branching point at T granularity)
+/// Yield once to the scheduler from async harness code: by default the longest-waiting runnable
+/// task runs next (the yielding task stays an alternative)
 pub async fn yield_now() {
+    with_exec(|e| e.yielded = true);
     shuttle::future::yield_now().await
 }
 
@@ -1266,6 +1306,8 @@ fn setup_exec(req: Req) {
             prefix_done_at: 0,
             queue: Vec::new(),
             contended: false,
+            yielded: false,
+            no_explore: false,
             contended_streak: 0,
             in_spawn: false,
             force_next: None,
